@@ -1,6 +1,6 @@
 """Minecraft Bedrock edition (RakNet unconnected ping / pong over UDP)."""
 
-FAMILY = dict(
+FAMILY = dict(send_units=1, 
     name="mcbedrock", nargs=2, gen="mcbedrock", retries=1, port=0, decode_property="C03", entry="mcbedrock",
     describe="pongs with 6-13 fields, all five game modes, empty / non-ASCII fields, u32 boundary counts, oversize names",
 )
